@@ -373,11 +373,62 @@ class Prop(SeqProp):
         for _ in range(n):
             yield {"kind": "create-during-flush", "parent_files": rng.randint(1, 4), "at_removal": None,
                    "via_exit": rng.random() < 0.5, "seed": rng.randrange(1 << 30)}
+        for _ in range(6 if tier == "quick" else 40):
+            # a FilePool object that is entered again after an earlier enter on it failed (its first file did not exist yet),
+            # and pools entered twice in a row
+            yield {"kind": "filepool-reenter", "files": rng.randint(1, 4), "fail_first": rng.random() < 0.7,
+                   "by_exception": rng.random() < 0.5, "rounds": rng.randint(1, 3)}
 
     def run_extra(self, desc):
         if self.scratch is None:
             self.scratch = core.scratch_dir()
+        if desc["kind"] == "filepool-reenter":
+            return core.call_with_alarm(lambda: self._filepool_reenter(desc), 20.0)
         return core.call_with_alarm(lambda: self._create_during_flush(desc), 60.0)
+
+    def _filepool_reenter(self, desc):
+        from windpyutils.files import FilePool
+        d = os.path.join(self.scratch, f"fpr{random.getrandbits(40)}")
+        os.mkdir(d)
+        held = []
+        try:
+            paths = [os.path.join(d, f"f{k}") for k in range(desc["files"])]
+            for p in paths[1:]:
+                open(p, "w").write("x\n")
+            if not desc["fail_first"]:
+                open(paths[0], "w").write("x\n")
+            fp = FilePool(paths, "r")
+            if desc["fail_first"]:
+                try:
+                    fp.__enter__()
+                    return "entering a FilePool whose first file does not exist did not raise"
+                except FileNotFoundError:
+                    pass
+                open(paths[0], "w").write("x\n")  # the file appears; the same pool object is used again
+            for rnd in range(desc["rounds"]):
+                fp.__enter__()
+                hs = [fp[p] for p in paths]
+                held += hs
+                if any(h.closed for h in hs) or len(fp) != len(paths):
+                    return f"round {rnd}: not every file is open inside the context"
+                if desc["by_exception"]:
+                    try:
+                        raise KeyError("body failed")
+                    except KeyError as e:
+                        fp.__exit__(KeyError, e, e.__traceback__)
+                else:
+                    fp.__exit__(None, None, None)
+                if not all(h.closed for h in hs):
+                    return (f"round {rnd} ({'after a failed first enter' if desc['fail_first'] else 'plain'}): "
+                            f"{sum(not h.closed for h in hs)} of {len(hs)} handles are still open after the context was left")
+            return None
+        finally:
+            for h in held:
+                try:
+                    h.close()
+                except Exception:  # noqa
+                    pass
+            core.cleanup_dir(d)
 
     def _create_during_flush(self, desc):
         """the parent lists k files and flushes (explicitly or by leaving the context); while its j-th `os.remove` is in
